@@ -25,9 +25,9 @@ RULE = (
     "re-enters an active runtime, reuses a runtime object, exits by exception, starts without a runtime or "
     "registers a default late, and runs at least one request after an exit."
 )
-ASSUMPTIONS = ["re-registering a default for a type that already has one is not generated (the statement does not say which wins)"]
+ASSUMPTIONS = ["when a default is re-registered, a runtime created while the earlier default was registered may serve either (the statement does not say); a runtime that predates the first registration must serve the current one"]
 FLOORS = {"programs": (15000, 150000), "runs_compared": (60000, 600000), "exits_by_exception": (3000, 30000),
-          "reentered_active": (600, 6000), "started_without_runtime": (4000, 40000), "late_defaults": (3000, 30000)}
+          "reentered_active": (600, 6000), "started_without_runtime": (4000, 40000), "late_defaults": (3000, 30000), "default_reregistrations": (800, 8000)}
 SHARDS_QUICK = 4
 
 
@@ -98,25 +98,39 @@ def gen_program(r, size):
 # ---- model ----------------------------------------------------------------
 
 
+class Held(dict):
+    """Handlers a runtime holds (given at construction / inherited through handle()), plus `snap`: the defaults
+    that were registered when it (or the runtime it derives from) was created."""
+
+    def __init__(self, held=(), snap=None):
+        super().__init__(held)
+        self.snap = dict(snap or {})
+
+
 class Model:
     def __init__(self, start_with_runtime):
         self.defaults = {"T0": "default0"}
-        self.objs = {}  # name -> held handlers {T: tag}
-        self.stack = [{}] if start_with_runtime else []
+        self.objs = {}  # name -> Held
+        self.stack = [Held({}, self.defaults)] if start_with_runtime else []
         self.base_exists = start_with_runtime
 
     def current(self):
         if not self.stack:
             # first use creates a default runtime for the thread, which then stays
-            self.stack.append({})
+            self.stack.append(Held({}, self.defaults))
             self.implicit_base = True
         return self.stack[-1]
 
     def lookup(self, T):
+        """Set of acceptable answers.  A held handler serves; else the default registered NOW.  If the default
+        was RE-registered after this runtime was created, the statement does not say whether the runtime keeps
+        the one it was created with, so both are accepted - but a runtime that predates the first registration
+        can only ever serve the current one."""
         held = self.current()
         if T in held:
-            return held[T]
-        return self.defaults.get(T, "TypeError")
+            return {held[T]}
+        cur = self.defaults.get(T, "TypeError")
+        return {cur, held.snap[T]} if T in held.snap else {cur}
 
 
 # ---- execution --------------------------------------------------------------
@@ -131,7 +145,7 @@ def execute(program):
     real = {}
     stats = {"runs": 0, "exc_exits": 0, "reentered": 0, "late": 0, "run_after_exit": 0}
     result = {}
-    late_registered = [False]
+    late_registered = [0]
     exited = [False]
 
     def run_block(block, active):
@@ -147,12 +161,13 @@ def execute(program):
                 stats["runs"] += 1
                 if exited[0]:
                     stats["run_after_exit"] += 1
-                if got != exp:
-                    raise Mismatch(f"run({T}) answered by {got!r}, model says {exp!r}", st)
+                if got not in exp:
+                    raise Mismatch(f"run({T}) answered by {got!r}, model says {sorted(exp)!r}", st)
             elif op == "with":
                 expr = st[1]
                 if expr[0] == "handle":
-                    held = dict(model.current())
+                    cur_ = model.current()
+                    held = Held(cur_, {**model.defaults, **cur_.snap})
                     held[expr[1]] = expr[2]
                     obj = rt.handle(types[expr[1]], tagger(expr[2]))
                     name = None
@@ -185,18 +200,21 @@ def execute(program):
                 new = parent.handle(types[T], tagger(tag))
                 if dict(parent.handlers) != before:
                     raise Mismatch("deriving a runtime altered the runtime it derives from", st)
-                model.objs[name] = {**parent_held, T: tag}
+                model.objs[name] = Held({**parent_held, T: tag}, {**model.defaults, **parent_held.snap})
                 real[name] = new
             elif op == "fresh":
                 _, name, hs = st
-                model.objs[name] = dict(hs)
+                model.objs[name] = Held(hs, model.defaults)
                 real[name] = rt.Runtime({types[t]: tagger(g) for t, g in hs.items()})
             elif op == "regdefault":
-                if not late_registered[0]:
-                    late_registered[0] = True
-                    stats["late"] += 1
-                    rt.handle_by_default(types[st[1]], tagger(st[2]))
-                    model.defaults[st[1]] = st[2]
+                # first registration of a default for T1, later ones re-register it with a new tag
+                late_registered[0] += 1
+                tag = f"{st[2]}{late_registered[0]}"
+                stats["late"] += 1
+                if late_registered[0] > 1:
+                    stats["rereg"] = stats.get("rereg", 0) + 1
+                rt.handle_by_default(types[st[1]], tagger(tag))
+                model.defaults[st[1]] = tag
 
     class Mismatch(Exception):
         def __init__(self, msg, st):
@@ -223,8 +241,8 @@ def execute(program):
                 except Exception as e:  # noqa: BLE001
                     got = f"{type(e).__name__}: {e}"
                 stats["runs"] += 1
-                if got != exp:
-                    raise Mismatch(f"after the program run({T}) answered by {got!r}, the restored base should answer {exp!r}", ["end"])
+                if got not in exp:
+                    raise Mismatch(f"after the program run({T}) answered by {got!r}, the restored base should answer {sorted(exp)!r}", ["end"])
         except Mismatch as m:
             result["mismatch"] = (str(m), m.st)
         except Exception as e:  # noqa: BLE001
@@ -243,6 +261,8 @@ def execute(program):
 
 
 DIRECTED = [
+    {"start_with_runtime": True, "block": [["fresh", "r0", {}], ["run", "T1"], ["regdefault", "T1", "late"], ["with", ["name", "r0"], [["run", "T1"]], False], ["run", "T1"], ["regdefault", "T1", "late"],
+                                            ["run", "T1"], ["with", ["name", "r0"], [["run", "T1"], ["derive", "r1", ["current"], "T2", "h1"], ["with", ["name", "r1"], [["run", "T1"]], False]], False], ["run", "T1"]]},
     {"start_with_runtime": True, "block": [["fresh", "r0", {"T2": "h1"}], ["with", ["name", "r0"], [["with", ["name", "r0"], [["run", "T2"]], False], ["run", "T2"]], False], ["run", "T2"], ["run", "T0"]]},
     {"start_with_runtime": False, "block": [["fresh", "r0", {"T2": "h1"}], ["with", ["name", "r0"], [["run", "T2"]], False], ["run", "T0"], ["run", "T2"]]},
     {"start_with_runtime": False, "block": [["with", ["handle", "T1", "h2"], [["run", "T1"]], True], ["run", "T1"], ["run", "T0"]]},
@@ -261,6 +281,7 @@ def run_one(ctx, program, tag):
     ctx.count("exits_by_exception", stats["exc_exits"])
     ctx.count("reentered_active", stats["reentered"])
     ctx.count("late_defaults", stats["late"])
+    ctx.count("default_reregistrations", stats.get("rereg", 0))
     if not program["start_with_runtime"]:
         ctx.count("started_without_runtime")
     if result.get("hung"):
